@@ -3,6 +3,9 @@ OPT / CLONE suites: the model of `optimize` / `clone_data` on the same scripts a
 The driver prints the same record the harness prints (blocks, heads, mapping, raw data cells, symbol
 table, structural read-back before/after) and appends ` iso=<graphIso verdict>` per record, computed by
 the verified checker of Spec/GraphIso.lean on (data block before, data block after, root pairs).
+` awf=<0|1>` (per record, on the store after the call, and on the final store): the well-formedness `Heap.WF` that
+the accessor theorems of Props/C07Access.lean assume, decided on the heap view `toAccessHeap` of the store
+(Props/C07Reach.lean proves it for every reachable store; the suite compares the store with the real heap cell by cell).
 Extra op (driver only): `load <dump>` replaces the state by a heap dump printed by the harness
 (used to replay the pre-states of running programs).
 -/
@@ -10,6 +13,7 @@ import Garnish.Store.BasicOptimize
 import Garnish.Spec.GraphIso
 import Garnish.Lemmas.OptimizeWF
 import Garnish.Lemmas.OptimizeWFv
+import Garnish.Lemmas.AccessReach
 import Garnish.Driver.ValIO
 namespace Garnish.Driver.Opt
 open Garnish Gen Garnish.Proto Garnish.BasicOpt Garnish.Driver
@@ -337,6 +341,9 @@ def splitOp (op : String) : String × String :=
 def trimSp (s : String) : String :=
   String.ofList ((s.toList.dropWhile (· = ' ')).reverse.dropWhile (· = ' ')).reverse
 
+/-- `Heap.WF` of the accessor model, decided on the heap view of the store -/
+def awf (s : Store) : String := if decide (toAccessHeap s).WF then "1" else "0"
+
 /-- one op; `none` = stop the script -/
 def runOp (n : Nat) (st : St) (op : String) : Except String (St × Bool) :=
   let (word, rest0) := splitOp op
@@ -398,7 +405,7 @@ def runOp (n : Nat) (st : St) (op : String) : Except String (St × Bool) :=
         let iso := isoVerdict st.s s (optPairs st.s s roots mapped)
         -- hypotheses of `C19_optimize_preserves` on the state before the call
         let wfv := if (wf st.s && rootsOK st.s roots) || (wfv st.s && rootsOKv st.s roots) then "1" else "0"
-        let rec_ := s!"{n}:opt ok M=[{m}] {dump s} BEFORE" ++ "{" ++ before ++ "} AFTER{" ++ after ++ "}" ++ s!" iso={iso} wf={wfv}"
+        let rec_ := s!"{n}:opt ok M=[{m}] {dump s} BEFORE" ++ "{" ++ before ++ "} AFTER{" ++ after ++ "}" ++ s!" iso={iso} wf={wfv} awf={awf s}"
         .ok ({ st with s := s, hs := hs, out := st.out ++ [rec_] }, true))
   | "clone" =>
     match handleOf rest st.hs with
@@ -415,7 +422,7 @@ def runOp (n : Nat) (st : St) (op : String) : Except String (St × Bool) :=
           | none => none)))
         let iso := isoVerdict st.s s pairs
         let wfv := if wf st.s && isNode st.s.cells a then "1" else "0"
-        let rec_ := s!"{n}:clone ok M=[{nw}] {dump s} BEFORE" ++ "{" ++ before ++ "} AFTER{" ++ after ++ "}" ++ s!" iso={iso} wf={wfv}"
+        let rec_ := s!"{n}:clone ok M=[{nw}] {dump s} BEFORE" ++ "{" ++ before ++ "} AFTER{" ++ after ++ "}" ++ s!" iso={iso} wf={wfv} awf={awf s}"
         .ok ({ st with s := s, hs := st.hs.push nw, out := st.out ++ [rec_] }, true))
   | w => .error s!"BAD-SCRIPT op {w}"
 
@@ -431,7 +438,7 @@ def runScript (script : String) : String :=
       | .ok (st, false) => .ok st
   match go ops 0 { s := Store.fresh, hs := #[], syms := [], out := [], stopped := false } with
   | .error e => e
-  | .ok st => String.intercalate " || " (if st.stopped then st.out else st.out ++ ["end " ++ dump st.s])
+  | .ok st => String.intercalate " || " (if st.stopped then st.out else st.out ++ ["end " ++ dump st.s ++ " awf=" ++ awf st.s])
 
 end Garnish.Driver.Opt
 
